@@ -690,3 +690,84 @@ Proof.
   rewrite Hc in H. exact (proj2 H Hn).
 Qed.
 
+(* witnesses at the 4 GiB corner *)
+Definition wit_div0 : list (Z * Z) := [(4294967276, 100)].
+Definition wit_caseB : list (Z * Z) := [(944892668, 22); (3350074472, 4294967295); (42949651, 1)].
+Definition wit_mem : Z := 4294967295.
+Definition zero_mem : mem := fun _ => 0.
+
+Lemma wit_div0_panics : create_bm wit_div0 wit_mem zero_mem = Panic 4.
+Proof. vm_compute. reflexivity. Qed.
+
+Lemma buffers_refuted : ~ buffers_full.
+Proof.
+  intros H. specialize (H wit_div0 wit_mem zero_mem).
+  unfold buffers_result_ok in H. rewrite wit_div0_panics in H. apply H.
+  - unfold wit_mem; lia.
+  - unfold wit_div0. repeat constructor; cbn; lia.
+  - split; [discriminate|]. unfold wit_div0, wit_mem. repeat constructor; cbn; lia.
+Qed.
+
+(* three one-slot classes, every size below the mapping length and far from the uint32 limit; a
+   percentage of 2^32-1 steps the running sum back from 22 to 21.  The third list header lands in the
+   last 36 bytes below 4 GiB, offset+36 wraps, and its buffer region is placed at offset 0 — over the
+   manager header and the first class.  The mapping side rejects this layout. *)
+Definition wit_caseB_classes : list class :=
+  [ mk_class 8 1 944892668; mk_class 944892732 1 3350074472;
+    {| cl_off := 4294967260; cl_regionOff := 0; cl_regionLen := 42949671; cl_size := 1; cl_cap := 1;
+       cl_head := 0; cl_tail := 0; cl_capPerBuffer := 42949651 |} ].
+
+Lemma wit_caseB_created :
+  exists m', create_bm wit_caseB wit_mem zero_mem = Ok (wit_caseB_classes, m') /\
+             map_bm wit_mem m' = Err 11.
+Proof.
+  eexists. split.
+  - vm_compute. reflexivity.
+  - vm_compute. reflexivity.
+Qed.
+
+Lemma wit_caseB_ok : 0 <= wit_mem < 9223372036854775808 /\ uint32_pairs wit_caseB /\ pairs_ok wit_mem wit_caseB /\
+                     Forall (fun p => fst p + c_bufferHeaderSize < 4294967296) wit_caseB.
+Proof.
+  unfold wit_mem, wit_caseB, uint32_pairs, pairs_ok.
+  split; [lia|]. split; [repeat constructor; cbn; lia|]. split; [split; [discriminate|]|]; repeat constructor; cbn; consts; lia.
+Qed.
+
+Lemma wit_caseB_not_ok : ~ layout_ok wit_caseB wit_mem wit_caseB_classes.
+Proof.
+  intros (_ & _ & Hb & _ & _).
+  (* slot 0 of the third class starts at offset 0, in front of its own header *)
+  specialize (Hb (nth 2 wit_caseB_classes (mk_class 0 0 0)) 0).
+  cbn [nth wit_caseB_classes] in Hb.
+  destruct Hb as (_ & H & _).
+  - cbn. right; right; left; reflexivity.
+  - cbn. lia.
+  - cbn in H. consts. lia.
+Qed.
+
+Lemma buffers_refuted_small_sizes : ~ buffers_full.
+Proof.
+  intros H. destruct wit_caseB_ok as (Hm & Hu & Hp & _).
+  specialize (H wit_caseB wit_mem zero_mem Hm Hu Hp). unfold buffers_result_ok in H.
+  destruct wit_caseB_created as (m' & Hc & _). rewrite Hc in H. exact (wit_caseB_not_ok H).
+Qed.
+
+Lemma peer_view_refuted : ~ peer_view_full.
+Proof.
+  intros H. destruct wit_caseB_ok as (Hm & Hu & Hp & _).
+  destruct wit_caseB_created as (m' & Hc & Hmap).
+  specialize (H wit_caseB wit_mem zero_mem _ _ Hm Hu Hp Hc). rewrite Hmap in H. discriminate H.
+Qed.
+
+(* queues: 24 + 12*cap = 2^32 + 8: the uint32 end offset is 8 < 24, the slice expression panics *)
+Lemma queues_refuted : ~ queues_full.
+Proof.
+  intros H. destruct (H 357913940 zero_mem ltac:(lia)) as (A & ms & m' & B & Hc & _).
+  vm_compute in Hc. discriminate Hc.
+Qed.
+
+(* 24 + 12*cap = 2^32 + 32: no panic, but a "357913942-entry" ring of 8 bytes *)
+Lemma queues_short_ring :
+  exists A ms m', create_qm 357913942 zero_mem = Ok (A, ms, m') /\
+                  q_cap (qm_send A) = 357913942 /\ q_hi (qm_send A) - q_lo (qm_send A) = 8.
+Proof. do 3 eexists. split; [vm_compute; reflexivity|]. split; reflexivity. Qed.
